@@ -31,7 +31,7 @@ class P:
         # fourteen operator characters (+ - * / ^ % & ! = ? : > < |), `?` and `:` included
         inames = ["hi", "+", "==", "in", "lo", "Hi", "+-", "-+", "**", "//", "^^", "%%", "&|", "!!", "=~", "??", ":=", "::", "><", "<>", "|>"]
         pnames = ["neg", "-", "!", "not", "Neg", "??", "::", "**", "=~"]
-        snames = ["++", "--", "bang", "Bang", "!!", "?:", "%%", ":>"]
+        snames = ["++", "--", "bang", "Bang", "+!", "?:", "%!", ":>"]      # disjoint from the infix names: a postfix operator is taken first
         for _ in range(nh):
             ops, expect = [], []
             reg = {}          # (kind, name) -> hid
@@ -125,6 +125,32 @@ class P:
                     ops.append("@x/EXEC:2:" + hx(src)); expect.append((src, want_now()))
                     ops.append("EXEC:1:" + hx(src)); expect.append((src, want_now()))
                     items.append((" ".join(scripts + ops), ("dispatch", len(scripts), expect)))
+        # a name re-bound WHILE the arguments of a call of that name are evaluated: a handler invoked for an argument registers the
+        # callee (again, or for the first time), or an argument assigns to the callee's name in the context. The call happens
+        # after its arguments, so it must see the binding in force then. For operators the model, like the code, fetches the
+        # handler before the operands (the correspondence judges those lines).
+        T = lambda h: speceval.to_proto_value(tag(h))
+        def line(scripts, ops, expect):
+            items.append((" ".join(scripts + ops), ("dispatch", len(scripts), expect)))
+        line(["H:31:r%s" % T(31), "H:32:r%s" % T(32), "H:40:qF%s.32.rn(0,1,0)" % hx("foo")],
+             ["REGF:%s:31" % hx("foo"), "REGF:%s:40" % hx("trig"), "EXEC:1:" + hx("foo(trig())"), "EXEC:1:" + hx("foo(1)")],
+             [None, None, ("foo(trig())", tag(32)), ("foo(1)", tag(32))])
+        line(["H:32:r%s" % T(32), "H:41:qF%s.32.rn(0,1,0)" % hx("newg")],
+             ["REGF:%s:41" % hx("trig"), "EXEC:1:" + hx("newg(1, trig())"), "EXEC:1:" + hx("newg()")],
+             [None, ("newg(1, trig())", tag(32)), ("newg()", tag(32))])
+        line(["H:31:r%s" % T(31), "H:33:r%s" % T(33)],
+             ["REGF:%s:31" % hx("foo"), "CF:1:%s:33" % hx("foo"), "EXEC:1:" + hx("foo(0)"), "EXEC:1:" + hx("foo(foo = 1)"), "EXEC:1:" + hx("foo(2)")],
+             [None, None, ("foo(0)", tag(33)), ("foo(foo = 1)", tag(31)), ("foo(2)", tag(31))])
+        line(["H:31:r%s" % T(31), "H:33:r%s" % T(33), "H:43:qF%s.31.rn(0,1,0)" % hx("foo")],
+             ["CF:1:%s:33" % hx("foo"), "REGF:%s:43" % hx("trig"), "EXEC:1:" + hx("foo(trig(), foo = 2)"), "EXEC:1:" + hx("foo()")],
+             [None, None, ("foo(trig(), foo = 2)", tag(31)), ("foo()", tag(31))])
+        for kind_, reg_, regact, src in (("P", "REGP:%s:31" % hx("neg"), "U%s.32." % hx("neg"), "neg trig()"),
+                                         ("S", "REGS:%s:31" % hx("bang"), "S%s.32." % hx("bang"), "trig() bang"),
+                                         ("I", "REGI:%s:12c:0:0:31" % hx("hi"), "I%s.12c.0.0.32." % hx("hi"), "1 hi trig()"),
+                                         ("I", "REGI:%s:12c:0:0:31" % hx("hi"), "I%s.12c.0.0.32." % hx("hi"), "trig() hi 1")):
+            line(["H:31:r%s" % T(31), "H:32:r%s" % T(32), "H:44:q%srn(0,1,0)" % regact],
+                 [reg_, "REGF:%s:44" % hx("trig"), "EXEC:1:" + hx(src), "EXEC:1:" + hx(src)],
+                 [None, None, (src, "PARSE-DEP"), (src, tag(32))])
         cases = flow.mk_cases("dispatch", items)
         # (b) precedence of registered operators
         nt = 250 if tier == "quick" else 20000
